@@ -243,7 +243,7 @@ func (e *Engine) mapIter(m *Map) iterator {
 			it.order = append(it.order, en)
 		}
 	}
-	if e.mapOrderMode && len(it.order) >= 2 {
+	if e.mapOrderMode && len(it.order) >= 2 && (e.mapOrderFilter == "" || (e.top != nil && strings.Contains(e.top.fn.String(), e.mapOrderFilter))) {
 		// rotations and reversal expose order dependence without n! blow-up
 		k := e.choose(len(it.order) + 1)
 		if k == len(it.order) {
